@@ -383,7 +383,13 @@ def run_files(spec, rec, lib):
         rp, kp = os.path.join(d, "cli-repodata-%d.json" % j), os.path.join(d, "cli-key-%d.txt" % j)
         md = {"name": "a", "version": "1.0", "n": j}
         with open(rp, "w") as fh:
-            _json.dump({"packages": {"a-1.0-0.tar.bz2": md}, "packages.conda": {}}, fh)
+            doc = {"packages": {"a-1.0-0.tar.bz2": md}, "packages.conda": {}}
+            if j % 2 == 0:
+                # history kept in the file: entries made earlier by ANOTHER key, for artifacts that are no longer listed and for the listed one
+                other = gkeys.key(9)
+                doc["signatures"] = {"withdrawn-0.1-0.tar.bz2": {other.hex: {"signature": "ab" * 64}},
+                                     "a-1.0-0.tar.bz2": {other.hex: {"signature": "cd" * 64}}}
+            _json.dump(doc, fh)
         with open(kp, "w") as fh:
             fh.write(seed.hex() + ("\n" if j % 2 else ""))
         try:
